@@ -335,6 +335,44 @@ class G:
             groups = groups[:1]
         return head + groups
 
+    def key_sibling(self, items):
+        """copy of a template that differs from it in exactly one component of one parameter key: same name
+        with another (non-empty) constraint, or another name with the same constraint - so that two children
+        of the same kind sit side by side and only the comparator of that kind decides their order"""
+        r = self.r
+        flat = [it for it in items if it[0] != 'g'] if r.random() < 0.6 else None
+        its = flat if flat is not None else list(items)
+        idx = [i for i, it in enumerate(its) if it[0] in 'dw']
+        if not idx:
+            return its
+        i = idx[-1] if r.random() < 0.6 else r.choice(idx)
+        kind, n, c = its[i]
+        out = list(its)
+        if r.random() < 0.6:
+            others = [x for x in CONS if x != c]
+            out[i] = (kind, n, r.choice(others))
+        else:
+            out[i] = (kind, r.choice([x for x in NAMES + [b'q', b'z'] if x != n]), c)
+        return out
+
+    def dup_group(self, vocab):
+        """a template whose optional groups expand to the same route more than once, and a literal route that
+        extends the repeated piece"""
+        r = self.r
+        base = [('s', b'/'), ('s', r.choice(vocab))] if r.random() < 0.8 else []
+        piece = r.choice([[('s', b'/'), ('s', r.choice([b'b', b'a', b'm']))],
+                          [('s', b'/')],
+                          [('s', b'/'), ('s', r.choice(vocab))]])
+        k = r.random()
+        if k < 0.5:
+            t = base + [('g', piece), ('g', piece)]
+        elif k < 0.75:
+            t = base + [('g', piece), ('g', piece), ('g', piece)]
+        else:
+            t = base + [('g', piece + [('g', piece)]), ('g', piece)]
+        ext = base + piece[:-1] + [('s', piece[-1][1] + r.choice([b'cd', b'c', b'/x']))] if piece[-1][1] != b'/' else base + [('s', b'/'), ('s', b'x')]
+        return t, ext
+
     def vocab(self):
         r = self.r
         v = r.sample(STATICS, 4) + [b'a', b'b']
@@ -363,6 +401,11 @@ class G:
                 pool.append(base + [('s', b'\\')])
             elif k < 0.70:
                 pool.append(self.rank_template(vocab))
+            elif pool and k < 0.78:
+                pool.append(self.key_sibling(r.choice(pool)))
+            elif k < 0.82:
+                t, ext = self.dup_group(vocab)
+                pool.append(t); pool.append(ext)
             else:
                 pool.append(self.template_items(vocab))
         return pool
@@ -528,14 +571,63 @@ def scen_parse_exhaustive(maxlen, alphabet=SYNTAX):
     return out
 
 
+
+def inject_fault(g, items):
+    """a semantic fault planted in a well-formed template tree: duplicate name, touching parameters, empty or
+    invalid name / constraint, empty wildcard, empty braces / parentheses - over all four parameter forms"""
+    r = g.r
+    flat_pos = [i for i, it in enumerate(items) if it[0] in 'dw']
+    k = r.random()
+    out = list(items)
+
+    def form(name):
+        kind = r.choice('dw'); c = r.choice([None, None, b'lower', b'u8', b'even'])
+        return (kind, name, c)
+    if k < 0.30 and flat_pos:
+        # duplicate: a later parameter (any form) reusing an earlier name
+        i = r.choice(flat_pos)
+        dup = form(out[i][1])
+        j = r.randrange(i + 1, len(out) + 1)
+        sep = [('s', r.choice([b'/', b'-', b'.', b'/a/']))]
+        out[j:j] = sep + [dup] + ([('s', b'/x')] if r.random() < 0.3 else [])
+        return g.render(out)
+    if k < 0.60 and flat_pos:
+        # touching: a parameter directly after another one (not necessarily the first of the template)
+        i = r.choice(flat_pos)
+        out[i + 1:i + 1] = [form(r.choice([b'q', b'z', b't9']))]
+        if r.random() < 0.4:
+            out[0:0] = [('s', b'/'), form(b'first'), ('s', b'-x')]
+        return g.render(out)
+    if k < 0.72:
+        bad = r.choice([b'{}', b'{:}', b'{*}', b'{*:lower}', b'{:lower}', b'{a:}', b'{*a:}', b'{a/b}', b'{a:b/c}', b'{a*}', b'{a:(}',
+                        b'{a{b}', b'{a:b:c}', b'{\\a}', b'{a b}', b'()', b'(())', b'{a}}', b'{', b'}', b'(', b')'])
+        j = r.randrange(len(out) + 1)
+        out[j:j] = [('s', bad)]
+        return g.render(out)
+    if k < 0.86:
+        # three or more parameters, the fault away from the first one
+        pre = [('s', b'/'), ('d', b'p1', None), ('s', b'/'), form(b'p2')]
+        t = pre + [form(r.choice([b'p3', b'p2', b'p1']))] if r.random() < 0.5 else pre + [('s', b'.'), form(r.choice([b'p2', b'p1', b'p3']))]
+        if r.random() < 0.5:
+            t = t[:4] + [('g', [('s', b'-')])] + [('g', t[4:])]
+        return g.render(t)
+    # escaped braces / parentheses next to real ones
+    pieces = [b'\\}', b'\\{', b'\\)', b'\\(', b'a\\}', b'\\\\']
+    j = r.choice(flat_pos) if flat_pos else len(out)
+    out[j:j] = [('s', r.choice(pieces))]
+    return g.render(out)
+
 def scen_parse_random(g, n):
     r = g.r
     out = []
     for _ in range(n):
         vocab = r.sample(STATICS, 4) + [b'a', b'b']
-        t = bytearray(g.render(g.template_items(vocab)))
+        items = g.template_items(vocab)
+        t = bytearray(g.render(items))
         k = r.random()
-        if k < 0.6:
+        if k < 0.35:
+            t = bytearray(inject_fault(g, items))
+        elif k < 0.75:
             # malformed stream: drop / insert one syntax character
             for _ in range(r.choice([1, 1, 2])):
                 if r.random() < 0.5 and t:
